@@ -25,6 +25,9 @@ PROP = {'gen': [],
                   'hand-written models Image/KDTree.v, Image/Octree.v, Image/Quantize.v of src/image.rs, tied to the code by the '
                   'correspondence run (exact equality of palettes, indices, octree dumps)',
                   'rasterize::RGBA::blend_over (alpha compositing) is an oracle: the harness passes effective pixels',
+                  'Floyd-Steinberg errors are modelled in Z sixteenths instead of f32: justified by C13_dither_slots (every slot is a '
+                  'multiple of 1/16 within 255.0, so each binary32 operation of the code is exact) and by the exact '
+                  'correspondence of dithered index images',
                   HARNESS],
  'assumptions': ['requested palette size >= 1 (0 divides by zero in from_image); every size up to usize::MAX is covered since the fix 38c2d5c (saturating product)',
                  'usize accumulators do not overflow (needs > 2^56 pixels)']}
